@@ -20,6 +20,7 @@ GEN = {
     "large:manyrounds": lambda rng: wc.gen_large(rng, "manyrounds"),
     "large:doublerepop": lambda rng: wc.gen_large(rng, "doublerepop"),
     "large:slowdrift": lambda rng: wc.gen_large(rng, "slowdrift"),
+    "large:donorrank": lambda rng: wc.gen_large(rng, "donorrank"),
     "joint:joint": lambda rng: wc.gen_joint(rng, "joint"),
     "joint:general": lambda rng: wc.gen_joint(rng, "general"),
     "joint:empty_final": lambda rng: wc.gen_joint(rng, "empty_final"),
